@@ -96,6 +96,7 @@ def gen_case(r):
             case['owner'] = 'posting'
     route = r.choice(['map-new'] * 5 + ['raw-append', 'raw-append', 'raw-insert0', 'lead-comment', 'trail-comment', 'lead-comment', 'construct', 'map-existing'])
     case['route'] = route
+    case['touch_first'] = r.random() < 0.4
     if route.startswith('raw'):
         case['raw_indent'] = r.choice(RAW_INDENTS)
     if route.endswith('comment'):
@@ -206,6 +207,10 @@ def run_case(case, lock=None, count=None):
     f = edits.P().parse(text, models.File)
     entry = f.raw_directives[0]
     owner = entry.raw_postings[0] if case['owner'] == 'posting' else entry
+    if case.get('touch_first'):
+        # the mapping view is read BEFORE indent_by is changed: the rule uses the indent_by current at insertion time
+        len(owner.meta)
+        'zz' in owner.meta
     entry.indent_by = iby
     if isinstance(entry, models.Transaction):
         for p in entry.raw_postings:
